@@ -136,7 +136,7 @@ package goat
 //@   ensures[C03.plain_error_text] bound("appErr") && appErr != nil && !isStatus(appErr) ==> result.Status.Code != 0 && result.Status.Message == errText(appErr)
 //@   ensures[C03.error_never_ok] bound("appErr") && appErr != nil ==> result.Status != nil && result.Status.Code != 0
 //@   atcall[C10.unary_handler_ctx_descends C07.unary_handler_ctx_descends] fnfield:H.google.golang.org/grpc.MethodDesc.Handler : desc(arg1, clientCtx)
-//@   ensures[C01.reply_body] bound("resp") && resp != nil && bound("err") && err == nil ==> result.Body != nil && result.Body.Data == protoBytes(resp)
+//@   ensures[C01.reply_body C05.reply_body] bound("resp") && resp != nil && bound("err") && err == nil ==> result.Body != nil && result.Body.Data == protoBytes(resp)
 
 //@ objinv[C10.objinv C12.objinv] goat.Server : self.ctx != nil && self.cancel != nil && self.services != nil && (forall j Int :: 0 <= j && j < len(self.statsHandlers) ==> self.statsHandlers[j] != nil)
 //@ objinv[C10.objinv C12.objinv] goat.Server : forall s String :: s in self.services ==> self.services[s] != nil
